@@ -1179,7 +1179,7 @@ impl<'a> Lexer<'a> {
                         let value = i64::from_str_radix(&num_str, 8).unwrap_or(0);
                         return TokenKind::BigInt(value.to_string());
                     }
-                    return TokenKind::Number(i64::from_str_radix(&num_str, 8).unwrap_or(0) as f64);
+                    return TokenKind::Number(radix_literal_value(&num_str, 8));
                 }
                 Some('b' | 'B') => {
                     // Binary
@@ -1200,7 +1200,7 @@ impl<'a> Lexer<'a> {
                         let value = i64::from_str_radix(&num_str, 2).unwrap_or(0);
                         return TokenKind::BigInt(value.to_string());
                     }
-                    return TokenKind::Number(i64::from_str_radix(&num_str, 2).unwrap_or(0) as f64);
+                    return TokenKind::Number(radix_literal_value(&num_str, 2));
                 }
                 Some('0'..='7') => {
                     // Legacy octal literal (e.g., 0777) - not allowed in strict mode
@@ -1469,6 +1469,19 @@ impl<'a> Lexer<'a> {
         }
     }
 }
+
+/// Value of the digits of a `0x` / `0o` / `0b` literal.  The literal may exceed 64 bits: its
+/// value is the nearest double (exact integer arithmetic up to 128 bits, whose conversion
+/// rounds correctly; beyond that the digits are accumulated in floating point).
+fn radix_literal_value(digits: &str, radix: u32) -> f64 {
+    match u128::from_str_radix(digits, radix) {
+        Ok(value) => value as f64,
+        Err(_) => digits.chars().fold(0.0, |acc, ch| {
+            acc * radix as f64 + ch.to_digit(radix).unwrap_or(0) as f64
+        }),
+    }
+}
+
 
 /// Check if a character can start an identifier (including unicode escape sequence)
 fn is_id_start(ch: char) -> bool {
